@@ -42,19 +42,26 @@ def parseWAct : List String → Option WAct
   | _ => none
 
 def parseTAct : String → Option TAct
-  | "peek" => some .peek
+  | "peek" => some (.peek false)
+  | "peekExpired" => some (.peek true)
   | "contains" => some .contains
   | "ensure" => some .ensure
-  | "loadActive" => some .loadActive
+  | "loadActive" => some (.loadActive false)
+  | "loadActiveExpired" => some (.loadActive true)
   | "lockCheck" => some .lockCheck
   | "awake" => some .awake
-  | "reload" => some .reload
+  | "reload" => some (.reload false)
+  | "reloadExpired" => some (.reload true)
   | "readErr" => some .readErr
   | _ => none
 
 def tActName : TAct → String
-  | .peek => "peek" | .contains => "contains" | .ensure => "ensure" | .loadActive => "loadActive"
-  | .lockCheck => "lockCheck" | .awake => "awake" | .reload => "reload" | .readErr => "readErr"
+  | .peek e => if e then "peekExpired" else "peek"
+  | .contains => "contains" | .ensure => "ensure"
+  | .loadActive e => if e then "loadActiveExpired" else "loadActive"
+  | .lockCheck => "lockCheck" | .awake => "awake"
+  | .reload e => if e then "reloadExpired" else "reload"
+  | .readErr => "readErr"
 
 def reasonStr : Reason → String
   | .idle => "idle" | .cancelled => "cancelled" | .mgrGone => "mgrGone"
